@@ -37,7 +37,7 @@ Definition low_cval (x : cval) (st : lst) : res (list instr * rop * list nat * l
       let* ix' := low_ix ix st in
       let* (t, st1) := take st in
       Ok ([ILoad (R t) a ix'], PReg (R t), [t], st1)
-  | VReg r => match alook r (l_rf st) with Some m => Ok ([], PReg (M m), [], st) | None => Err EIll end
+  | VReg r => match alook r (l_rf st) with Some m => Ok ([], PReg m, [], st) | None => Err EIll end
   | VLoop v => match alook v (l_lv st) with Some r => Ok ([], PReg (R r), [], st) | None => Err EIll end
   end.
 
@@ -80,7 +80,7 @@ Fixpoint epr_arrays_at (i n : nat) (seq : bool) (st : lst) : lst :=
   end.
 Definition epr_arrays (n : nat) (seq : bool) (st : lst) : lst := epr_arrays_at 0 n seq st.
 
-Definition bind_rf (r m : nat) (st : lst) : lst :=
+Definition bind_rf (r : nat) (m : reg) (st : lst) : lst :=
   mkL (l_act st) (l_peak st) (l_mused st) (l_q st) (l_next st) (l_decl st) (l_ret st)
       ((r, m) :: adel r (l_rf st)) (l_lv st) (l_len st).
 
@@ -120,7 +120,7 @@ Fixpoint lower_stmt (fd : bool) (s : stmt) (st : lst) {struct s} : res (list sir
       Ok (c ++ [XI (IStore (PReg (M m)) a (PImm 0))], st1)
   | SMeasReg q ip r =>
       let* (m, c, st1) := low_meas q ip true st in
-      Ok (c, bind_rf r m st1)
+      Ok (c, bind_rf r (M m) st1)
   | SFree q =>
       let* id := qubit_id q st in
       Ok ([set_q Q0 id; XI (IQ QFree Q0)], if fd then deactivate q st else st)
@@ -136,10 +136,17 @@ Fixpoint lower_stmt (fd : bool) (s : stmt) (st : lst) {struct s} : res (list sir
           release_all ts (release t st2))
   | SRegAdd r o m =>
       match alook r (l_rf st) with
-      | None => Err EIll
-      | Some k =>
+      | Some (Rg BM k) =>
           let* (lo, y, ts, st1) := low_src o st in
           Ok (map XI (lo ++ [add_instr (M k) (M k) y m]), release_all ts st1)
+      | _ => Err EIll
+      end
+  | SUAdd r o m =>
+      match alook r (l_rf st) with
+      | Some (Rg BR k) =>
+          let* (lo, y, ts, st1) := low_src o st in
+          Ok (map XI (lo ++ [add_instr (R k) (R k) y m]), release_all ts st1)
+      | _ => Err EIll
       end
   | SIf c cb x y body =>
       let* (cbody, st1) := lower_block fd body st in
@@ -151,10 +158,20 @@ Fixpoint lower_stmt (fd : bool) (s : stmt) (st : lst) {struct s} : res (list sir
           let* (ly, py, ty, st3) := low_cval y st2 in
           Ok ([XIf (lx ++ ly) c px py cbody], release_all (tx ++ ty) st3)
       end
-  | SLoop cb v start stop step body =>
+  | SNewReg r init =>
+      let* (k, st1) := take st in
+      Ok ([XI (ISet (R k) init)],
+          mkL (l_act st1) (l_peak st1) (l_mused st1) (l_q st1) (l_next st1) (l_decl st1)
+              (l_ret st1 ++ [R k]) ((r, R k) :: adel r (l_rf st1)) (l_lv st1) (l_len st1))
+  | SLoop cb v None start stop step body =>
       let* (r, st1) := take st in
       let* (cbody, st2) := lower_block fd body (bind_lvr v r st1) in
       let st3 := release r (with_lvs st2 (l_lv st)) in
+      if is_nil cbody then Ok ([], st3) else Ok ([XLoop (R r) start stop step cbody], st3)
+  | SLoop cb v (Some k) start stop step body =>
+      let* (r, st1, mine) := claim k st in
+      let* (cbody, st2) := lower_block fd body (bind_lvr v r st1) in
+      let st3 := (if mine then release r (with_lvs st2 (l_lv st)) else with_lvs st2 (l_lv st)) in
       if is_nil cbody then Ok ([], st3) else Ok ([XLoop (R r) start stop step cbody], st3)
   | SForeach enum v a body =>
       match alook a (l_len st) with
@@ -249,7 +266,7 @@ Definition reset_block (st : lst) : lst :=
 Definition lower_flush (body : list sir) (st : lst) : res (option (list sir) * lst) :=
   let* (P, st1) := init_code (l_decl st) [] st in
   let full := P ++ body ++ map (fun d : arrdecl => XI (IRetArr (fst (fst d)))) (l_decl st)
-                ++ map (fun m => XI (IRetReg (M m))) (l_ret st) in
+                ++ map (fun m => XI (IRetReg m)) (l_ret st) in
   Ok (if is_nil full then None else Some full, reset_block st1).
 
 (* whole program: one entry per flush (None = nothing pending, no subroutine sent) *)
